@@ -75,8 +75,15 @@ func (r *reader) item() types.WorkItem {
 	it.Extrinsic = []types.ExtrinsicSpec{}
 	if xl != "-" {
 		for k, s := range strings.Split(xl, ",") {
+			// "<len>" = a fresh blob; "<len>=<j>" = the very blob of position j again (same hash, same length):
+			// one extrinsic referenced twice counts twice in the refine load
+			ref := k
+			if i := strings.Index(s, "="); i >= 0 {
+				ref = h.I(s[i+1:])
+				s = s[:i]
+			}
 			x := types.ExtrinsicSpec{Len: types.U32(h.U(s))}
-			x.Hash[0], x.Hash[1] = byte(k), 0xE0
+			x.Hash[0], x.Hash[1] = byte(ref), 0xE0
 			it.Extrinsic = append(it.Extrinsic, x)
 		}
 	}
@@ -211,6 +218,15 @@ func genItem(rng *h.Rng, st h.Stats) string {
 			v = uint64(rng.Intn(5000))
 		}
 		xl[i] = strconv.FormatUint(v, 10)
+		if i > 0 && rng.Chance(1, 5) {
+			j := rng.Intn(i) // repeat an earlier extrinsic of this item
+			base := xl[j]
+			if k := strings.Index(base, "="); k >= 0 {
+				base = base[:k]
+				j = h.I(xl[j][k+1:])
+			}
+			xl[i] = base + "=" + strconv.Itoa(j)
+		}
 	}
 	xs := "-"
 	if nx > 0 {
